@@ -22,7 +22,7 @@ RULE = ("history = event sequence over {key-addressed operation (get, set, delet
         "client_class (each method call is a contact) and real Clients over the fake network (connect/sendall events "
         "grouped per public call are contacts). Bounded-exhaustive: every sequence up to depth 5 (thorough 7) over an "
         "8-symbol alphabet (2 servers; get on each, set_many; three advances; fail/heal of server 0) x all six "
-        "configurations; 'probe trains' - server 0 failing, then every sequence of up to 7 (thorough 9) gaps drawn from {below retry_timeout, above it, above dead_timeout} each followed by an operation, with and without a heal part-way; the same trains to depth 3 (thorough 5) over real Clients on the fake network for each of the five failure kinds; 'two outages' - three servers, two of them starting to fail at different instants of a 10-point time grid whose gaps straddle dead_timeout in several ways, traffic on every key at every subset of the remaining instants (one server is evicted while another is being brought back); Hypothesis sequences up to length 40. Observation through public seams only: the contact log "
+        "configurations; 'probe trains' - server 0 failing, then every sequence of up to 7 (thorough 9) gaps drawn from {below retry_timeout, above it, above dead_timeout} each followed by an operation, with and without a heal part-way; the same trains to depth 3 (thorough 5) over real Clients on the fake network for each of the five failure kinds, half of them on the ElastiCache subclass (servers learnt from a configuration endpoint; same failover machinery); 'two outages' - three servers, two of them starting to fail at different instants of a 10-point time grid whose gaps straddle dead_timeout in several ways, traffic on every key at every subset of the remaining instants (one server is evicted while another is being brought back); Hypothesis sequences up to length 40. Observation through public seams only: the contact log "
         "and a hasher passed as hasher= (a RendezvousHash subclass, or a minimal class offering only the documented get_node/add_node/remove_node) that records (rotation at that instant, key, node) for every "
         "routing decision. Oracle: per continuous failing interval of a server, <= 2 contacts in any retry_timeout "
         "window and <= retry_attempts+2 in any dead_timeout window; every routing decision equals the reference "
@@ -183,12 +183,29 @@ def check(case):
             env.clock = clock
             for s in env.servers:
                 s.clock = clock
-            hc = HashClient(servers, hasher=(make_minimal_hash if case.get("hasher") == "minimal" else make_loghash)(routes), retry_attempts=ra, retry_timeout=RT, dead_timeout=DT, ignore_exc=ie,
-                            socket_module=env.net, default_noreply=False)
+            hkw = dict(hasher=(make_minimal_hash if case.get("hasher") == "minimal" else make_loghash)(routes), retry_attempts=ra, retry_timeout=RT, dead_timeout=DT, ignore_exc=ie,
+                       socket_module=env.net, default_noreply=False)
+            if case.get("aws"):
+                # the ElastiCache subclass: same failover machinery, servers learnt from a configuration endpoint
+                from vlib.mcserver import McServer
+                from pymemcache.client.ext.aws_ec_client import AWSElastiCacheHashClient
+                import pymemcache.client.ext.aws_ec_client as _aws
+                cfgsrv = McServer(clock, name="cfg")
+                cfgsrv.cluster_config = b"1\n" + " ".join("%s|%s|%d" % (h, h, p) for h, p in servers).encode() + b"\n"
+                env.net.add_server(("cfg.example.com", 11211), cfgsrv)
+                if hasattr(_aws, "time"):          # the subclass reads the clock through its own module's `time`
+                    world["aws_time"] = (_aws, _aws.time)
+                    _aws.time = _T(clock)
+                hc = AWSElastiCacheHashClient("cfg.example.com:11211", use_vpc=True, **hkw)
+                world["mark0"] = len(env.net.log)
+            else:
+                hc = HashClient(servers, **hkw)
         return _run(case, hc, servers, names, owner, key_of, routes, world, env, clock)
     finally:
         H.time = saved_time
         Scripted.world = None
+        if world.get("aws_time"):
+            world["aws_time"][0].time = world["aws_time"][1]
 
 
 def _contacts_since(world, env, servers, mark):
@@ -219,7 +236,7 @@ def _run(case, hc, servers, names, owner, key_of, routes, world, env, clock):
     clean = {}                      # server -> no failed contact since its last successful one
     intervals = {s: [] for s in servers}
     labels = set()
-    mark = 0
+    mark = world.get("mark0", 0)
     died = set()
     revived = False
     reprobe = False
@@ -475,7 +492,7 @@ def real_train_cases(tier, seed):
                         for g in gaps:
                             ev += [["adv", GAPS[g]], ["op", opn, 0]]
                         yield {"servers": 2 + (n + ra) % 2, "retry_attempts": ra, "ignore_exc": ie, "backend": "real", "recovery_step": 7, "events": ev,
-                               "recovery_op": ("get", "set_many", "get_many")[(sum(gaps) + n) % 3]}
+                               "recovery_op": ("get", "set_many", "get_many")[(sum(gaps) + n) % 3], "aws": bool((sum(gaps) + n + ra + ie) % 2)}
 
 
 def minimise(case, still_fails):
@@ -492,7 +509,7 @@ def history_strategy(tier):
         st.tuples(st.just("fail"), st.integers(0, 2), st.sampled_from(sorted(ERR))).map(list),
         st.tuples(st.just("heal"), st.integers(0, 2)).map(list))
     return st.fixed_dictionaries({"servers": st.sampled_from([1, 2, 2, 3]), "recovery_op": st.sampled_from(["get", "set_many", "get_many", "delete"]), "hasher": st.sampled_from(["subclass", "minimal"]), "retry_attempts": st.sampled_from([0, 1, 2]), "ignore_exc": st.booleans(),
-                                  "backend": st.sampled_from(["scripted", "scripted", "real"]), "events": st.lists(ev, min_size=1, max_size=40)})
+                                  "backend": st.sampled_from(["scripted", "scripted", "real"]), "aws": st.booleans(), "events": st.lists(ev, min_size=1, max_size=40)})
 
 
 PARTS = [
